@@ -58,6 +58,12 @@
 //     final value is returned after the results) and is an opaque number when it is only passed on; config
 //     "extvars": variables of other packages that are only read become extra parameters; "fnseams" may also name
 //     package-qualified functions (mm.AllocFrame);
+//   - byte array values: results of type [N]uint8, composite literals [N]uint8{a, b, ..}, locals holding them and
+//     indexing them; var declarations whose initial values read elements or call methods (translated as :=);
+//     config "extstructs" (struct types of other packages given by their integer fields) and "fieldtypes" (a field
+//     declared as a slice of interfaces that in fact holds values of one such struct: e.g. a color.Palette of
+//     RGBA entries; x.(T) on its elements is then the identity); "extvars" may also be byte slices (":-4") and
+//     fields reached through a pointer field of the receiver (cons.font.GlyphWidth);
 //   - config "lenonly": slice fields of which the code only takes len() are modelled by that length;
 //   - p[lo:hi] of a []byte parameter (capacity taken to be the length);
 //   - several structs per config (records are emitted in dependency order; config "ignore" leaves fields such as
@@ -115,6 +121,8 @@ type config struct {
 	FnSeams map[string]seamMethod `json:"fnseams"` // package-level function variable -> how its calls are recorded ("world" functions)
 	LenOnly map[string][]string   `json:"lenonly"` // struct type name -> slice fields of which only len() is used: modelled by their length (an N)
 	ExtVars map[string]string     `json:"extvars"` // Go expression text of a variable of another package that is only read -> "coqname:width": an extra parameter
+	ExtStructs map[string]extStruct `json:"extstructs"` // struct types of other packages (e.g. color.RGBA) given by their integer fields
+	FieldTypes map[string]string    `json:"fieldtypes"` // "Struct.field" -> struct type name: the field is a slice of that struct (overrides the declared type, e.g. a color.Palette of RGBA entries, all set)
 	Join    bool                  `json:"join"`    // an if statement whose branches only assign locals is `let vars := if c then .. else .. in rest` (no duplication of rest)
 }
 
@@ -129,6 +137,11 @@ type seamMethod struct {
 	// the call: the translated function takes a parameter o_M : <trace> -> (results) that is applied to the trace
 	// (which already contains the call); only with "typed" seams
 	Oracle []string `json:"oracle"`
+}
+
+type extStruct struct {
+	Pkg    string   `json:"pkg"`
+	Fields []string `json:"fields"` // "name:width"
 }
 
 type seamSpec struct {
@@ -215,6 +228,15 @@ func typeOf(e ast.Expr, pkg string) tinfo {
 	case *ast.SelectorExpr:
 		if w, ok := cfg.Types[t.Sel.Name]; ok {
 			return tinfo{width: w, named: t.Sel.Name}
+		}
+		if _, ok := cfg.ExtStructs[t.Sel.Name]; ok {
+			return tinfo{width: -5, named: t.Sel.Name}
+		}
+	case *ast.ArrayType:
+		if t.Len != nil && cfg.Gres {
+			if el := typeOf(t.Elt, pkg); el.width == 8 {
+				return tinfo{width: -4, array: true} // a byte array value ([3]uint8)
+			}
 		}
 	case *ast.ParenExpr:
 		return typeOf(t.X, pkg)
@@ -750,6 +772,31 @@ func (tr *translator) expr(e ast.Expr, en *env) (string, tinfo) {
 				return tmp, tinfo{width: -4}
 			}
 		}
+	case *ast.CompositeLit:
+		if cfg.Gres && t.Type != nil {
+			if ty := typeOf(t.Type, tr.pkg); ty.width == -4 && ty.array {
+				lst := "nil"
+				for i := len(t.Elts) - 1; i >= 0; i-- {
+					if _, kv := t.Elts[i].(*ast.KeyValueExpr); kv {
+						fail("%s: keyed array literal", tr.fn.Name)
+					}
+					x, xt := tr.expr(t.Elts[i], en)
+					if xt.width == 0 {
+						x = tr.wrap(8, x)
+					}
+					lst = x + " :: " + lst
+				}
+				return "(" + lst + ")", ty
+			}
+		}
+	case *ast.TypeAssertExpr:
+		// x.(T) for an element of a slice declared (config "fieldtypes") to hold values of struct type T only
+		if cfg.Gres && t.Type != nil {
+			xs, xt := tr.expr(t.X, en)
+			if ty := typeOf(t.Type, tr.pkg); xt.width == -9 && ty.width == -5 && ty.named == xt.named {
+				return xs, xt
+			}
+		}
 	case *ast.StarExpr:
 		if id, ok := t.X.(*ast.Ident); ok && id.Name == tr.ptrRecv {
 			return v(id.Name), en.vars[id.Name]
@@ -955,6 +1002,17 @@ func (tr *translator) expr(e ast.Expr, en *env) (string, tinfo) {
 					if len(pats) == 0 {
 						pat = "_"
 					}
+					for _, xp := range monExtra[name] {
+						args = append(args, xp.name)
+						switch xp.kind {
+						case "seam":
+							tr.seamUsed[xp.name] = xp.width
+						case "ext":
+							tr.extUsed[xp.name] = xp.width
+						case "oracle":
+							tr.oracleUsed[xp.name] = xp.ty
+						}
+					}
 					if cfg.Gres {
 						callee := name
 						if monFuel[name] {
@@ -1034,6 +1092,13 @@ var monResults = map[string][]tinfo{}
 var monInout = map[string]bool{}
 var monFuel = map[string]bool{}
 var shadowCount int
+
+type extraParam struct {
+	name, kind, ty string
+	width    int
+}
+
+var monExtra = map[string][]extraParam{} // the extra parameters (seam results, external variables, oracles) of a translated method, in order
 
 func (tr *translator) ret(vals []string, en *env) string {
 	if tr.mon != "" {
@@ -1349,7 +1414,7 @@ func (tr *translator) block(stmts []ast.Stmt, en *env, k func(en *env) string) s
 					name = fresh
 					coq = v(name)
 				}
-				if lt.width == -4 {
+				if lt.width == -4 && !lt.array {
 					fail("%s: %s := of a slice (aliasing)", tr.fn.Name, name)
 				}
 			}
@@ -1455,6 +1520,35 @@ func (tr *translator) block(stmts []ast.Stmt, en *env, k func(en *env) string) s
 		gd, ok := s.Decl.(*ast.GenDecl)
 		if !ok || gd.Tok != token.VAR {
 			fail("%s: unsupported declaration", tr.fn.Name)
+		}
+		if cfg.Gres {
+			hoist := false
+			for _, sp := range gd.Specs {
+				for _, val := range sp.(*ast.ValueSpec).Values {
+					if needsHoist(val) {
+						hoist = true
+					}
+				}
+			}
+			if hoist {
+				// var x T = e with an element read or a call in e: x := T(e); the other names one by one
+				var seq []ast.Stmt
+				for _, sp := range gd.Specs {
+					vs := sp.(*ast.ValueSpec)
+					for i, n := range vs.Names {
+						if i < len(vs.Values) {
+							var val ast.Expr = vs.Values[i]
+							if vs.Type != nil {
+								val = &ast.CallExpr{Fun: vs.Type, Args: []ast.Expr{val}}
+							}
+							seq = append(seq, &ast.AssignStmt{Lhs: []ast.Expr{n}, Tok: token.DEFINE, Rhs: []ast.Expr{val}})
+						} else {
+							seq = append(seq, &ast.DeclStmt{Decl: &ast.GenDecl{Tok: token.VAR, Specs: []ast.Spec{&ast.ValueSpec{Names: []*ast.Ident{n}, Type: vs.Type}}}})
+						}
+					}
+				}
+				return tr.block(append(seq, stmts[1:]...), en, k)
+			}
 		}
 		en2 := en.clone()
 		out := ""
@@ -2139,6 +2233,13 @@ func main() {
 		snames = append(snames, st)
 	}
 	sort.Strings(snames)
+	for es, spec := range cfg.ExtStructs {
+		structPkg[es] = spec.Pkg
+		for _, f := range spec.Fields {
+			n, w := splitNameWidth(f)
+			structFields[es] = append(structFields[es], sfield{name: n, width: w})
+		}
+	}
 	for _, st := range snames {
 		path := filepath.Join(cfg.Repo, cfg.Structs[st])
 		file := files[path]
@@ -2194,6 +2295,10 @@ func main() {
 							continue
 						}
 						w := sf.width
+						if ft, ok := cfg.FieldTypes[st+"."+n.Name]; ok && cfg.Gres {
+							w = -8
+							sf.named = ft
+						}
 						for _, lo := range cfg.LenOnly[st] {
 							if lo == n.Name && cfg.Gres {
 								w = -10
@@ -2236,6 +2341,14 @@ func main() {
 			}
 		}
 	}
+	for es := range cfg.ExtStructs {
+		if cfg.Structs == nil {
+			cfg.Structs = map[string]string{}
+		}
+		cfg.Structs[es] = "(config: a struct type of package " + cfg.ExtStructs[es].Pkg + ")"
+		snames = append(snames, es)
+	}
+	sort.Strings(snames)
 	// records are printed after the records their fields mention
 	printed := map[string]bool{}
 	var order []string
@@ -2479,8 +2592,10 @@ func main() {
 			svs = append(svs, sv)
 		}
 		sort.Strings(svs)
+		var extras []extraParam
 		for _, sv := range svs {
 			params = append(params, "("+sv+" : N)")
+			extras = append(extras, extraParam{name: sv, kind: "seam", width: tr.seamUsed[sv]})
 		}
 		var evs []string
 		for ev := range tr.extUsed {
@@ -2488,7 +2603,12 @@ func main() {
 		}
 		sort.Strings(evs)
 		for _, ev := range evs {
-			params = append(params, "("+ev+" : N)")
+			if tr.extUsed[ev] == -4 {
+				params = append(params, "("+ev+" : list N)")
+			} else {
+				params = append(params, "("+ev+" : N)")
+			}
+			extras = append(extras, extraParam{name: ev, kind: "ext", width: tr.extUsed[ev]})
 		}
 		var ovs []string
 		for ov := range tr.oracleUsed {
@@ -2497,7 +2617,9 @@ func main() {
 		sort.Strings(ovs)
 		for _, ov := range ovs {
 			params = append(params, "("+ov+" : "+tr.oracleUsed[ov]+")")
+			extras = append(extras, extraParam{name: ov, kind: "oracle", ty: tr.oracleUsed[ov]})
 		}
+		monExtra[name] = extras
 		if len(tr.results) == 1 && len(tr.globals) == 0 && tr.ptrRecv == "" {
 			resultTypes[name] = tr.results[0]
 		} else {
